@@ -23,6 +23,13 @@ def mon_limit_df(result, pre, *a, **k):
     orig = attach.original('bycycle.utils.dataframes', 'limit_df')
     args = monitors.bind(orig, a, k)
     fs, start, stop, reset = args['fs'], args['start'], args['stop'], args['reset_indices']
+    d_in = poollog.tables_equal(args['df'], pre) if isinstance(args.get('df'), pd.DataFrame) else None
+    if d_in is not None or (isinstance(args.get('df'), pd.DataFrame) and list(args['df'].index) != list(pre.index)):
+        # a selection that rewrites the table it selects from is not lossless: the caller's table (and every later window cut from
+        # it) is no longer the analysis
+        violation(PROP, 'limit_df:input-table-modified', 'limit_df changed the table it was given (start=%r stop=%r reset_indices=%r): %s'
+                  % (start, stop, reset, d_in or 'row labels changed'))
+        return
     center = monitors.centre_of(pre)
     if center is None:
         count('C18:limit_df_unreadable')
